@@ -141,12 +141,17 @@ Section Tables.
     destruct i as [|[|[|[|]]]]; cbn [nth]; try lia; apply G; auto; lia.
   Qed.
 
-  (* vertex_to_cell *)
+  (* vertex_to_cell: the set loop of _compute_connectivity collects exactly the cells having the vertex *)
   Theorem vertex_to_cell_correct v iC :
     In iC (V2C cells v) <-> iC < length cells /\ In v (nth iC cells []).
   Proof.
-    unfold V2C. rewrite filter_In, in_seq, memb_In. intuition lia.
+    unfold V2C. rewrite nodup_In, in_flat_map. split.
+    - intros [c [Hc Hx]]. apply in_seq in Hc. apply in_flat_map in Hx. destruct Hx as [V [HV Hi]].
+      destruct (V =? v) eqn:E; [|contradiction]. destruct Hi as [<-|[]]. apply Nat.eqb_eq in E. subst V.
+      split; [lia|assumption].
+    - intros [L I]. exists iC. split; [apply in_seq; lia|]. apply in_flat_map. exists v. split; [assumption|].
+      rewrite Nat.eqb_refl. now left.
   Qed.
   Theorem vertex_to_cell_NoDup v : NoDup (V2C cells v).
-  Proof. apply NoDup_filter, seq_NoDup. Qed.
+  Proof. apply NoDup_nodup. Qed.
 End Tables.
